@@ -1,16 +1,24 @@
 use serde::de::Visitor;
 
-use crate::internal::error::{set_default, Context, ContextSupport, Error, Result};
+use crate::internal::error::{fail, set_default, try_, Context, ContextSupport, Error, Result};
 
 use super::random_access_deserializer::RandomAccessDeserializer;
 
 pub struct NullDeserializer {
     path: String,
+    len: usize,
 }
 
 impl NullDeserializer {
-    pub fn new(path: String) -> Self {
-        Self { path }
+    pub fn new(path: String, len: usize) -> Self {
+        Self { path, len }
+    }
+
+    fn check(&self, idx: usize) -> Result<()> {
+        if idx >= self.len {
+            fail!("Out of bounds access");
+        }
+        Ok(())
     }
 }
 
@@ -22,32 +30,53 @@ impl Context for NullDeserializer {
 }
 
 impl<'de> RandomAccessDeserializer<'de> for NullDeserializer {
-    fn is_some(&self, _idx: usize) -> Result<bool> {
+    fn is_some(&self, idx: usize) -> Result<bool> {
+        self.check(idx)?;
         Ok(false)
     }
 
-    fn deserialize_any_some<V: Visitor<'de>>(&self, visitor: V, _idx: usize) -> Result<V::Value> {
-        visitor.visit_unit::<Error>().ctx(self)
+    fn deserialize_any_some<V: Visitor<'de>>(&self, visitor: V, idx: usize) -> Result<V::Value> {
+        try_(|| {
+            self.check(idx)?;
+            visitor.visit_unit::<Error>()
+        })
+        .ctx(self)
     }
 
-    fn deserialize_any<V: Visitor<'de>>(&self, visitor: V, _idx: usize) -> Result<V::Value> {
-        visitor.visit_unit::<Error>().ctx(self)
+    fn deserialize_any<V: Visitor<'de>>(&self, visitor: V, idx: usize) -> Result<V::Value> {
+        try_(|| {
+            self.check(idx)?;
+            visitor.visit_unit::<Error>()
+        })
+        .ctx(self)
     }
 
-    fn deserialize_option<V: Visitor<'de>>(&self, visitor: V, _idx: usize) -> Result<V::Value> {
-        visitor.visit_none::<Error>().ctx(self)
+    fn deserialize_option<V: Visitor<'de>>(&self, visitor: V, idx: usize) -> Result<V::Value> {
+        try_(|| {
+            self.check(idx)?;
+            visitor.visit_none::<Error>()
+        })
+        .ctx(self)
     }
 
-    fn deserialize_unit<V: Visitor<'de>>(&self, visitor: V, _idx: usize) -> Result<V::Value> {
-        visitor.visit_unit::<Error>().ctx(self)
+    fn deserialize_unit<V: Visitor<'de>>(&self, visitor: V, idx: usize) -> Result<V::Value> {
+        try_(|| {
+            self.check(idx)?;
+            visitor.visit_unit::<Error>()
+        })
+        .ctx(self)
     }
 
     fn deserialize_unit_struct<V: Visitor<'de>>(
         &self,
         _: &'static str,
         visitor: V,
-        _idx: usize,
+        idx: usize,
     ) -> Result<V::Value> {
-        visitor.visit_unit::<Error>().ctx(self)
+        try_(|| {
+            self.check(idx)?;
+            visitor.visit_unit::<Error>()
+        })
+        .ctx(self)
     }
 }
